@@ -9,8 +9,8 @@
                                   flag_bytes false), every other cell untouched
      gate_reads_flag_only / stored_or_deleted_by_flags   the two places where Properties are read look at them only
                                   through [frozen_props] and [all_zero]
-   NOT proved here (stretch goal `props_irrelevance`): that exec as a whole returns the same status and balances
-   from two states that differ only in Properties bytes with equal frozen_props / all_zero. *)
+   That exec as a whole returns the same status, output and balances from two states that differ only in such
+   Properties bytes is proved in C04_Sim.v (props_irrelevance). *)
 From EV Require Import Base.Bytes Base.Store Base.Monad gen.Consts Codec.Types Helpers.Helpers
   Ledger.Types Ledger.Env Ledger.Funcs Ledger.Transfers LedgerProofs.Defs LedgerProofs.EnvSpec
   LedgerProofs.Spec_Transfers_Base LedgerProofs.Spec_System LedgerProofs.C04_Core.
